@@ -247,7 +247,8 @@ Step(e) ==
          /\ Check("C17", <<"independent-target-not-run-while-slow-script-runs">>,
                   (~g.watch /\ e.status = "idle" /\ ~signalled /\ ~waited) => IndependentOK)
          /\ Check("C10", <<"signal-not-honoured", e.status>>, e.status # "stall-after-signal")
-         /\ Check("C17", <<"stall", e.status>>, e.status # "stall")
+         /\ CheckAll({"C17"} \cup (IF g.watch THEN {} ELSE {"C04"}) \cup (IF rootErr # 0 THEN {"C10"} ELSE {}),
+                     <<"stall", e.status>>, e.status # "stall")
          /\ Check("C06", <<"quiescent-but-not-up-to-date">>, (g.watch /\ e.status = "idle" /\ ~signalled) => UpToDateOK(e))
          /\ UNCHANGED mon
     [] OTHER -> UNCHANGED mon
